@@ -14,6 +14,7 @@ RULE = ("points of G1/G2 (identity, generator, [k]g for small k, seeded random s
         "hostile workload that the checked decoder ACCEPTS is re-encoded and must reproduce the input bytes. Encodings of "
         "points outside the subgroup are driven too but only counted (out of the property's domain). A case is (op, group, "
         "sort flag, identity?, leading-zero x byte?, representation class of the source, build)")
+RULE += (" " + 'Points with a coordinate whose leading 16 bits equal those of the modulus / are zero are included.')
 ASSUMPTIONS = ["model encoder written from src/bls12_381/README.md and the property text", "lexicographic order of Fq2 with the u-coefficient most significant"]
 MIN_EVALS = {"quick": 6000, "thorough": 200000}
 
